@@ -19,7 +19,8 @@ def gen_cases(ctx):
     maxlen = ctx.size(6, 8)
     for base in (33, 64):
         for (cf, cb) in ((0, 10), (10, 10), (12, 8), (10, 0)):
-            alpha = [chr(base + v) for v in (2, 9, 10, 11, 25)]
+            # base 64: characters below '@' stand for negative values (Solexa style), below every cutoff including 0
+            alpha = [chr(base + v) for v in ((2 if base == 33 else -3), 9, 10, 11, 25)]
             if ctx.quick:
                 alpha = alpha[:4]
             for n in range(0, maxlen + 1):
@@ -32,14 +33,15 @@ def gen_cases(ctx):
         cf = rng.choice((0, 0, 5, 10, 20, 30, -3, 45))
         cb = rng.choice((0, 5, 10, 20, 30, 30, -3, 45))
         mode = rng.random()
+        lo = 0 if base == 33 or rng.random() < 0.5 else -5
         if mode < 0.3:
-            q = [rng.randint(0, 41) for _ in range(n)]
+            q = [rng.randint(lo, 41) for _ in range(n)]
         elif mode < 0.7:  # near the cutoffs: many ties in the running sum
             q = [rng.choice((cb - 1, cb, cb + 1, cf, cf + 1, cf - 1, cb - 2, cb + 2)) for _ in range(n)]
-            q = [min(max(x, 0), 93 if base == 33 else 62) for x in q]
+            q = [min(max(x, lo), 93 if base == 33 else 62) for x in q]
         else:  # good middle, bad ends
             k1, k2 = rng.randint(0, n), rng.randint(0, n)
-            q = [rng.randint(0, 15) if (i < k1 or i >= n - k2) else rng.randint(15, 41) for i in range(n)]
+            q = [rng.randint(lo, 15) if (i < k1 or i >= n - k2) else rng.randint(15, 41) for i in range(n)]
         cases.append(("qtrim", "".join(chr(base + x) for x in q), cf, cb, base))
     for _ in range(ctx.size(4000, 120000)):
         base = rng.choice((33, 64))
@@ -225,6 +227,18 @@ def check(ctx):
             if rng.random() < 0.3:
                 c.cuts = (rng.choice([1, 3, -2]),)
             reads = [S.make_read(rng, i, [], False) for i in range(rng.choice([1, 4, 10]))]
+            if rng.random() < 0.4:
+                # the same Phred values written with base 64; some reads start or end with characters below '@' (negative values)
+                c.qbase = 64
+                neg = rng.random() < 0.5
+                new = []
+                for nm, sq, ql in reads:
+                    vals = [min(ord(x) - 33, 62) for x in ql]
+                    if neg and vals:
+                        k1, k2 = rng.choice([0, 1, 2, 3]), rng.choice([0, 0, 1, 2])
+                        vals = [rng.randint(-5, -1) if (i < k1 or i >= len(vals) - k2) else v for i, v in enumerate(vals)]
+                    new.append((nm, sq, "".join(chr(64 + v) for v in vals)))
+                reads = new
             res = S.run_impl(c, reads, d)
             nsys += 1
             if res["exit"] != 0:
@@ -246,6 +260,26 @@ def check(ctx):
                                       {"case": ["system", res["argv"][5:-1]], "reads": [list(x) for x in reads], "observed": [nm, sq, ql], "expected": [sq0[a:b], ql0[a:b]],
                                        "why": "read %s: -q %s gives %r, the rule gives %r" % (nm, c.qcut, sq, sq0[a:b])})
                         break
+            if c.qcut is None and c.nextseq is not None:
+                # --nextseq-trim alone: the 3' rule with every G counted as cutoff - 1, qualities decoded with the given base
+                for (nm, sq, ql), (_, sq0, ql0) in zip(res["files"].get(0, []), cut_only["files"].get(0, [])):
+                    b = spec_3p([(c.nextseq - 1) if bb == "G" else (ord(x) - c.qbase) for bb, x in zip(sq0, ql0)], c.nextseq)
+                    if sq != sq0[:b] or ql != ql0[:b]:
+                        ctx.violation("system: --nextseq-trim at the command line does not trim as the rule says",
+                                      {"case": ["system", res["argv"][5:-1]], "reads": [list(x) for x in reads], "observed": [nm, sq, ql], "expected": [sq0[:b], ql0[:b]],
+                                       "why": "read %s: --nextseq-trim %d (quality base %d) gives %r, the rule gives %r" % (nm, c.nextseq, c.qbase, sq, sq0[:b])})
+                        break
+            if c.qbase == 64 and all(ord(x) >= 64 for _, _, ql in reads for x in ql):
+                # the base only shifts the scale: the same values written with base 33 are trimmed at the same places
+                c33 = S.Cfg.from_json(c.to_json())
+                c33.qbase = 33
+                r33 = S.run_impl(c33, [(nm, sq, "".join(chr(ord(x) - 31) for x in ql)) for nm, sq, ql in reads], d)
+                s64 = [sq for _, sq, _ in res["files"].get(0, [])]
+                s33 = [sq for _, sq, _ in r33["files"].get(0, [])]
+                if r33["exit"] == 0 and s64 != s33:
+                    ctx.violation("system: the quality base changes where reads are trimmed",
+                                  {"case": ["system", res["argv"][5:-1]], "reads": [list(x) for x in reads], "observed": s64, "expected": s33,
+                                   "why": "the same Phred values give %r with base 64 and %r with base 33" % (s64, s33)})
             if rep != before - after:
                 ctx.violation("system: reported quality-trimmed bases differ from the bases removed",
                               {"case": ["system", res["argv"][5:-1]], "reads": [list(x) for x in reads], "observed": rep, "expected": before - after,
